@@ -326,6 +326,33 @@ def run(ctx):
     if not okcnt:
         res.add(Finding('C16', 'C16.c', 'R-DECISION', ik.file, ik.qualname, ik.node.lineno, 'limit counter', why))
 
+    # ---- C16.e merging the per-day listings: only the listing that is exhausted is dropped
+    cee = res.clause('C16.e', 'R-PROV', 'the merge of per-day listings drops exactly the listing that returned no more keys', floor=1)
+    it3 = cas.lookup('iter_recording_ids')
+    nx = [n for n in ast.walk(it3.node) if isinstance(n, ast.Assign) and isinstance(n.value, ast.Call) and isinstance(n.value.func, ast.Name) and
+          n.value.func.id == 'next' and n.value.args and isinstance(n.value.args[0], ast.Name)]
+    if len(nx) != 1:
+        raise AnalysisError('S3 listing merge has a shape the rule does not model (expected one `key = next(<listing>, None)`)')
+    cur = nx[0].value.args[0].id
+    drops = []
+    for n in ast.walk(it3.node):
+        if isinstance(n, ast.Call) and isinstance(n.func, ast.Attribute) and n.func.attr in ('remove', 'pop', 'discard') and isinstance(n.func.value, ast.Name):
+            drops.append(n)
+        if isinstance(n, ast.Delete):
+            drops.append(n)
+    okm = bool(drops) and all(isinstance(d, ast.Call) and d.func.attr == 'remove' and d.args and isinstance(d.args[0], ast.Name) and d.args[0].id == cur for d in drops)
+    cee.instance('%d removal(s) from the list of per-day listings, each `remove(%s)`' % (len(drops), cur), it3.qualname, okm)
+    cee.evaluations += len(drops)
+    if not okm:
+        bad = [d for d in drops if not (isinstance(d, ast.Call) and d.func.attr == 'remove' and d.args and isinstance(d.args[0], ast.Name) and d.args[0].id == cur)]
+        res.add(Finding('C16', 'C16.e', 'R-PROV', it3.file, it3.qualname, bad[0].lineno if bad else it3.node.lineno, norm(bad[0]) if bad else 'listing removal',
+                        'when a per-day listing is exhausted, a listing is dropped by position / other identity instead of the exhausted one (`%s`): an '
+                        'unread day can be discarded and its recordings are missed' % cur))
+    # ---- C16.f every saved recording has the object the window lookup lists (shared with C15.e)
+    from . import c15
+    cff = res.clause('C16.f', 'R-ORDER', 'every returning save writes the listed object (a saved recording is discoverable)', floor=1)
+    c15.save_completeness(ctx, res, cff, 'C16', 'C16.f')
+
     # ---- C16.d pass-through chain
     okd, why = passthrough(repo, cas, fac)
     cd.instance('start_date / end_date handed unchanged from iter_recording_ids to the facade listing', cas.name, okd, detail=why)
